@@ -23,7 +23,7 @@ import pydantic
 
 import vloop
 from taskiq import AsyncBroker, Context, TaskiqDepends, async_shared_broker  # noqa: F401
-from taskiq.brokers.inmemory_broker import InmemoryResultBackend
+from taskiq.brokers.inmemory_broker import InMemoryBroker, InmemoryResultBackend
 from taskiq.compat import parse_obj_as
 from taskiq.formatters.json_formatter import JSONFormatter
 from taskiq.receiver import Receiver, params_parser
@@ -288,8 +288,9 @@ def define(case, out):
     return fn, CAP
 
 
-def make_broker(fmt, ser):
-    broker = CapBroker().with_result_backend(InmemoryResultBackend())
+def make_broker(fmt, ser, broker=None):
+    if broker is None:
+        broker = CapBroker().with_result_backend(InmemoryResultBackend())
     broker = broker.with_serializer(PickleSerializer() if ser == "pickle" else JSONSerializer())
     if fmt == "json":
         broker = broker.with_formatter(JSONFormatter())
@@ -314,12 +315,14 @@ async def trip(case):
                       lambda: Receiver(broker, validate_params=bool(case.get("validate", True))))
 
 
-async def call(case, out, fn, CAP, broker, task, get_receiver, registry=None, worker=None):
+async def call(case, out, fn, CAP, broker, task, get_receiver, registry=None, worker=None, deliver=None):
     """one call of `task` through kiq -> wire -> the receiver.  `broker` is the broker the kick lands on.  Ordinary call:
     `fn` (registered with `broker`) is the function under test and `CAP` its capture list.  registry = (defs, target):
     the call is made in a process where several functions are registered (see registry_trip); which of them the receiver
     ran is read off their capture lists (each body appends to its own) and the observation - hints, pydantic's table,
-    CPython's binding, received values - is taken against THAT function (against defs[target] when none ran)."""
+    CPython's binding, received values - is taken against THAT function (against defs[target] when none ran).
+    deliver: how the message reaches a receiver when that is not `get_receiver().callback(bytes)` (life-cycle groups: the
+    real InMemoryBroker.kick -> whatever `broker.receiver` is at that moment)."""
     if registry is not None:
         out["executed"], out["judged"] = [], registry[1]
         out["src"], out["hints"] = registry[0][registry[1]][1]["src"], registry[0][registry[1]][1]["hints"]
@@ -379,7 +382,7 @@ async def call(case, out, fn, CAP, broker, task, get_receiver, registry=None, wo
         n0 = len(CAP)
     else:
         n0 = [len(d[3]) for d in registry[0]]
-    receiver = get_receiver()
+    receiver = get_receiver() if deliver is None else None
     consulted = out["consulted"] = []
 
     def logging_parse_obj_as(annot, value):
@@ -390,7 +393,10 @@ async def call(case, out, fn, CAP, broker, task, get_receiver, registry=None, wo
     exc = None
     params_parser.parse_obj_as = logging_parse_obj_as
     try:
-        await receiver.callback(bm.message)
+        if deliver is None:
+            await receiver.callback(bm.message)
+        else:
+            await deliver(bm)
     except BaseException as e:  # noqa: BLE001
         exc = e
     finally:
@@ -620,8 +626,78 @@ async def registry_trip(case):
         async_shared_broker.default_broker(None)
 
 
+# --------------------------------------------------------------------------- groups of calls along a broker's life cycle
+# A life-cycle case {"broker": {InMemoryBroker options}, "life": [...], "steps": [calls], fmt, ser, validate} is a SEQUENCE
+# run in this one process on ONE InMemoryBroker object (cast_types = validate; the other constructor options as given;
+# formatter / serializer set on it as on any broker):
+#   {"ev": "reg", "step": j, "how": "register" | "decorator"}   the function of steps[j] becomes task "t<j>"
+#   {"ev": "startup"} / {"ev": "shutdown"}                      await broker.startup() / broker.shutdown()
+#   {"ev": "call", "step": j}                                   steps[j] through kiq -> InMemoryBroker.kick ->
+#                                                               broker.receiver.callback -> the function body
+# steps[j]["task"] = i (i <= j): the call uses the function / task object of steps[i] (the same task called again, e.g.
+# before and after a restart).  The configuration of the broker is fixed at construction; every message of the
+# sequence is judged on its own with THAT configuration (cast_types False: everything arrives as sent), whatever
+# start-ups and shut-downs the object went through before.
+class LifeBroker(InMemoryBroker):
+    """the real InMemoryBroker.  kick() only parks the message, so that `call` can take its observations (what was
+    prepared / dumped, pydantic's table, CPython's binding) between kiq() and the delivery; deliver() then runs the
+    real InMemoryBroker.kick on it (find_task, self.receiver.callback, in place or as a background task) + wait_all()"""
+
+    def __init__(self, **kw):
+        super().__init__(**kw)
+        self.sent = []
+
+    async def kick(self, message):
+        self.sent.append(message)
+
+    async def deliver(self, message):
+        await InMemoryBroker.kick(self, message)
+        await self.wait_all()
+
+
+async def lifecycle_trip(case):
+    conf = (case.get("fmt"), case.get("ser"), bool(case.get("validate", True)))
+    steps = case["steps"]
+    for s in steps:
+        if (s.get("fmt"), s.get("ser"), bool(s.get("validate", True))) != conf:
+            raise RuntimeError("a step of a life-cycle group has its own formatter / serializer / cast_types")
+    broker = make_broker(conf[0], conf[1], LifeBroker(cast_types=conf[2], **case["broker"]))
+    defs, receivers = {}, []
+    out = {"steps": [None] * len(steps)}
+    try:
+        for ev in case["life"]:
+            if ev["ev"] == "reg":
+                j = ev["step"]
+                o = {}
+                fn, CAP = define(steps[j], o)
+                if ev["how"] == "register":
+                    t = broker.register_task(fn, task_name="t%d" % j)
+                else:
+                    t = broker.task(task_name="t%d" % j)(fn)
+                defs[j] = (o, fn, CAP, t)
+            elif ev["ev"] == "startup":
+                await broker.startup()
+            elif ev["ev"] == "shutdown":
+                await broker.shutdown()
+            else:
+                j = ev["step"]
+                st = steps[j]
+                o, fn, CAP, t = defs[st.get("task", j)]
+                if [p for p in st["params"]] != [p for p in steps[st.get("task", j)]["params"]]:
+                    raise RuntimeError("a step that re-uses a task has another signature")
+                if not any(x is broker.receiver for x in receivers):
+                    receivers.append(broker.receiver)          # kept alive: identity, not id()
+                out["steps"][j] = await call(st, dict(o), fn, CAP, broker, t, None, deliver=broker.deliver)
+        out["receiver_objects"] = len(receivers)
+        return out
+    finally:
+        broker.executor.shutdown()
+
+
 def run_case(case, opts):
     async def main(loop):
+        if "life" in case:
+            return await lifecycle_trip(case)
         if "events" in case:
             return await registry_trip(case)
         if "steps" in case:
